@@ -219,7 +219,9 @@ func (e *Env) Eval(c CExpr) TVal {
 		saved, had := e.vars[c.Var]
 		e.vars[c.Var] = mathInt(name)
 		e.qdepth++
+		e.x.ctx.inQuant++
 		body := e.EvalBool(c.Body)
+		e.x.ctx.inQuant--
 		e.qdepth--
 		if had {
 			e.vars[c.Var] = saved
@@ -468,6 +470,7 @@ func (e *Env) evalBinary(c *CBinary) TVal {
 	case "-":
 		return mathInt(Sub(a, b))
 	case "*":
+		e.x.ctx.MulHint(a, b)
 		return mathInt(Mul(a, b))
 	case "/":
 		return mathInt(e.x.ctx.TDiv(a, b))
@@ -733,4 +736,25 @@ func (c *Ctx) Pow2Sym(k Term) Term {
 	c.Assert(And(cs...))
 	c.memo[key] = r
 	return r
+}
+
+// MulHint ties a product of two symbolic terms to an uninterpreted function of its factors,
+// so that semantically equal factors give equal products by congruence (the nonlinear
+// solver alone often fails to see (x1*y) = (x2*y) from x1 = x2 under ite/array noise).
+func (c *Ctx) MulHint(a, b Term) {
+	if c.inQuant > 0 {
+		return
+	}
+	if _, ok := isNumeral(a); ok {
+		return
+	}
+	if _, ok := isNumeral(b); ok {
+		return
+	}
+	key := "mulhint:" + a + "|" + b
+	if _, ok := c.memo[key]; ok {
+		return
+	}
+	c.memo[key] = "1"
+	c.Assert(And(Eq(Mul(a, b), app("mulf", a, b)), Eq(app("mulf", a, b), app("mulf", b, a))))
 }
